@@ -31,6 +31,14 @@ func deadlineDerived(cx *Ctx, v ssa.Value, seen map[ssa.Value]bool) bool {
 		fb := cx.P.Func(expPkg, "Variable", "findBucket")
 		return fb != nil && x.Parent() == fb && len(fb.Params) > 1 && x == fb.Params[1]
 	case *ssa.Call:
+		if isBuiltinCall(x, "max") || isBuiltinCall(x, "min") {
+			for _, a := range x.Call.Args {
+				if deadlineDerived(cx, a, seen) {
+					return true
+				}
+			}
+			return false
+		}
 		return invokeName(x) == "ExpiresAt"
 	case *ssa.Convert:
 		return deadlineDerived(cx, x.X, seen)
@@ -118,6 +126,14 @@ func ruleC13Clamp(cx *Ctx) {
 					}
 				}
 			}
+			// (b') clamp by the builtin: max(deadline, wheel time)
+			if m, ok := b.X.(*ssa.Call); ok && !safe && isBuiltinCall(m, "max") {
+				for _, a := range m.Call.Args {
+					if isTimeLoad(a, timeF) {
+						safe = true
+					}
+				}
+			}
 			// (b) clamp: every phi edge is either the wheel time itself or guarded by edge >= wheel time
 			if ph, ok := b.X.(*ssa.Phi); ok && !safe {
 				all := true
@@ -144,7 +160,7 @@ func ruleC13Clamp(cx *Ctx) {
 			if safe {
 				raw := false
 				allInstrs(fn, func(x ssa.Instruction) {
-					if s, ok := x.(*ssa.BinOp); ok && s.Op == token.SHR {
+					if s, ok := x.(*ssa.BinOp); ok && (s.Op == token.SHR || s.Op == token.QUO) {
 						if p, isP := s.X.(*ssa.Parameter); isP && deadlineDerived(cx, p, map[ssa.Value]bool{}) && s.X != b.X {
 							raw = true
 						}
@@ -437,8 +453,29 @@ func ruleC13Span(cx *Ctx) {
 	}
 	// delta sources: (now >> s) - (prev >> s)
 	tainted := map[ssa.Value]bool{}
+	var spansG *ssa.Global
+	for _, f := range cx.P.FuncsOfPkg(expPkg) {
+		if f.Pkg != nil && spansG == nil {
+			spansG, _ = f.Pkg.Members["spans"].(*ssa.Global)
+		}
+	}
 	isShr := func(v ssa.Value) bool {
 		b, ok := stripConv(v).(*ssa.BinOp)
+		if ok && b.Op == token.QUO && spansG != nil {
+			// t / spans[level]: the same tick count (spans are the powers of two 1 << shift, C13.tables)
+			if ld, isLd := stripConv(b.Y).(*ssa.UnOp); isLd && ld.Op == token.MUL {
+				if ia, isIA := ld.X.(*ssa.IndexAddr); isIA {
+					if g, isG := ia.X.(*ssa.Global); isG && g == spansG {
+						return true
+					}
+					if l2, isL := ia.X.(*ssa.UnOp); isL {
+						if g, isG := l2.X.(*ssa.Global); isG && g == spansG {
+							return true
+						}
+					}
+				}
+			}
+		}
 		return ok && b.Op == token.SHR
 	}
 	funcs := cx.P.FuncsOfPkg(expPkg)
